@@ -362,6 +362,8 @@ class ViolationGenerator:
         # (ignored files are never analysed), against the path inside the project.
 
         # Apply inline ignore directives via IgnoreChecker
+        # the files may have changed since an earlier run of this (long-lived) rule object
+        self._ignore_checker.clear_cache()
         violations = self._ignore_checker.filter_violations(violations)
 
         return violations
